@@ -50,3 +50,4 @@ def run(ctx, R):
     cgsize.rule_x86(ctx, R, FI)    # the program area holds the largest program: an overflow would overwrite the SuperscalarHash routine the light-mode loop calls
     genreset.rule_ctor_init(ctx, R, 'x86')
     x86loop.rule_loopstore(ctx, R)
+    x86loop.rule_loopload(ctx, R)
